@@ -13,7 +13,8 @@ TNext ==
      \/ ev.e = "read" /\ Read(ev.frame)
      \/ ev.e = "send" /\ Send(ev.packet)
      \/ ev.e = "deliver" /\ Deliver(ev.packet, ev.frames)
-     \/ ev.e = "reset" /\ inq' = << >> /\ pending' = << >> /\ wire' = << >> /\ outq' = << >> /\ nsent' = 0     \* next scenario (a new talker process)
+     \/ ev.e = "reset" /\ inq' = << >> /\ pending' = << >> /\ wire' = << >> /\ outq' = << >> /\ nsent' = 0     \* next scenario (a new talker process ...
+                        /\ start' = (IF "start" \in DOMAIN ev THEN ev.start ELSE <<0, 0, 0, 0>>)        \* ... which has sent ev.start packets already)
 TSpec == TInit /\ [][TNext]_<<tvars, l, mem, hb, out, step>>
 Quiescent == (l > Len(Tr) /\ pending = << >> /\ wire = << >>) => outq = inq
 TraceAccepted == TLCGet("stats").diameter - 1 = Len(Tr)
